@@ -16,6 +16,17 @@ class Extinction(object):
         self.wav = None
         self.chi = None
 
+    def __eq__(self, other):
+        if not isinstance(other, Extinction):
+            return NotImplemented
+        if self.wav is None or other.wav is None or self.chi is None or other.chi is None:
+            return (self.wav is None and other.wav is None
+                    and self.chi is None and other.chi is None)
+        return (self.wav.shape == other.wav.shape
+                and self.chi.shape == other.chi.shape
+                and bool(np.all(self.wav == other.wav))
+                and bool(np.all(self.chi == other.chi)))
+
     @property
     def wav(self):
         return self._wav
